@@ -35,6 +35,10 @@ pub struct Transaction<SP: StorageProvider, PS> {
     phead: Option<CmdId>,
     /// Written but not committed heads
     heads: BTreeMap<CmdId, Location>,
+    /// Locations the current (unwritten) perspective is built on. They have
+    /// been taken out of `heads` but nothing written yet descends from them,
+    /// so `locate` must also search from here.
+    pbase: Vec<Location>,
     /// Tag for associated policy store
     policy_store: PhantomData<PS>,
 }
@@ -47,6 +51,7 @@ impl<SP: StorageProvider, PS> Transaction<SP, PS> {
             perspective: None,
             phead: None,
             heads: BTreeMap::new(),
+            pbase: Vec::new(),
             policy_store: PhantomData,
         }
     }
@@ -71,8 +76,9 @@ impl<SP: StorageProvider, PS: PolicyStore> Transaction<SP, PS> {
         if let Some(found) = storage.get_location(address, buffer)? {
             return Ok(Some(found));
         }
-        // Search from our temporary heads.
-        for &head in self.heads.values() {
+        // Search from our temporary heads, and from what the unwritten
+        // perspective (if any) is built on.
+        for &head in self.heads.values().chain(&self.pbase) {
             if let Some(found) = storage.get_location_from(head, address, buffer)? {
                 return Ok(Some(found));
             }
@@ -89,6 +95,7 @@ impl<SP: StorageProvider, PS: PolicyStore> Transaction<SP, PS> {
     pub fn flush(&mut self, storage: &mut SP::Storage) -> Result<(), ClientError> {
         if let Some(p) = Option::take(&mut self.perspective) {
             self.phead = None;
+            self.pbase.clear();
             let segment = storage.write(p)?;
             self.heads
                 .insert(segment.head_id(), segment.head_location()?);
@@ -305,6 +312,7 @@ impl<SP: StorageProvider, PS: PolicyStore> Transaction<SP, PS> {
                 // accepted so far.
                 self.perspective = None;
                 self.phead = None;
+                self.pbase.clear();
                 if let Some(loc) = parent_tip {
                     self.heads.insert(parent.id, loc);
                 }
@@ -336,6 +344,7 @@ impl<SP: StorageProvider, PS: PolicyStore> Transaction<SP, PS> {
     {
         // Must always start a new perspective for merges.
         if let Some(p) = Option::take(&mut self.perspective) {
+            self.pbase.clear();
             let seg = storage.write(p)?;
             self.heads.insert(seg.head_id(), seg.head_location()?);
         }
@@ -372,6 +381,7 @@ impl<SP: StorageProvider, PS: PolicyStore> Transaction<SP, PS> {
         // These are no longer heads of the transaction, since they are both covered by the merge
         self.heads.remove(&left.id);
         self.heads.remove(&right.id);
+        self.pbase = alloc::vec![left_loc, right_loc];
 
         self.perspective = Some(perspective);
         self.phead = Some(command.id());
@@ -400,6 +410,7 @@ impl<SP: StorageProvider, PS: PolicyStore> Transaction<SP, PS> {
         // Write out the current perspective.
         if let Some(p) = Option::take(&mut self.perspective) {
             self.phead = None;
+            self.pbase.clear();
             let seg = storage.write(p)?;
             self.heads.insert(seg.head_id(), seg.head_location()?);
         }
@@ -415,6 +426,7 @@ impl<SP: StorageProvider, PS: PolicyStore> Transaction<SP, PS> {
 
         self.phead = Some(parent.id);
         self.heads.remove(&parent.id);
+        self.pbase = alloc::vec![loc];
 
         Ok(p)
     }
